@@ -846,6 +846,13 @@ class tensor:
         elif len(grps.shape) == 1:
             grps = np.array([grps])
 
+        # The groups name distinct modes of this tensor
+        listed = np.asarray(grps).reshape(-1)
+        if listed.size > 0 and (np.min(listed) < 0 or np.max(listed) >= n):
+            assert False, "Symmetry groups must list modes in [0, ndims)"
+        if len(np.unique(listed)) != listed.size:
+            assert False, "Cannot have overlapping symmetries (a mode is listed twice)"
+
         # Substantially different routines are called depending on whether the user
         # requests the permutation information. If permutation is required
         # (or requested) the algorithm is much slower
@@ -1464,6 +1471,13 @@ class tensor:
 
         if len(grps.shape) == 1:
             grps = np.array([grps])
+
+        # The groups name distinct modes of this tensor
+        listed = np.asarray(grps).reshape(-1)
+        if listed.size > 0 and (np.min(listed) < 0 or np.max(listed) >= n):
+            assert False, "Symmetry groups must list modes in [0, ndims)"
+        if len(np.unique(listed)) != listed.size:
+            assert False, "Cannot have overlapping symmetries (a mode is listed twice)"
 
         data = self.data.copy()
 
